@@ -830,6 +830,36 @@ def main(ctx, replay):
     except (OSError, ValueError, KeyError) as e:
         ctx.notes.append("real deliverer denial scenarios skipped: %r" % (e,))
     tick("real-denial")
+    # ---- on the wire: one attempt of the real HTTPDeliverer (real http.Transport, keep-alive) is ONE send.  The target reads the
+    #      message and drops the connection without answering, after a warm-up delivery left an idle connection to re-use - the
+    #      situation in which net/http re-sends a request it considers replayable without telling the caller.
+    try:
+        wcases = [
+            {"_name": "plain", "headers": {"Content-Type": "application/json"}, "body_hex": b'{"n":1}'.hex(), "attempts": 3, "warm": True},
+            {"_name": "plain-empty-body", "headers": {"X-Event": "e"}, "body_hex": "", "attempts": 2, "warm": True},
+            {"_name": "plain-fresh-connection", "headers": {"Content-Type": "application/json"}, "body_hex": b'{"n":1}'.hex(), "attempts": 2, "warm": False},
+            {"_name": "producer-header:Idempotency-Key", "headers": {"Idempotency-Key": "k-1", "Content-Type": "application/json"}, "body_hex": b'{"n":2}'.hex(), "attempts": 3, "warm": True},
+            {"_name": "producer-header:X-Idempotency-Key", "headers": {"X-Idempotency-Key": "k-2"}, "body_hex": "", "attempts": 2, "warm": True},
+        ]
+        rc, out, err = C.harness_run(H, ["wire-run"], {"cases": [{k: v for k, v in c.items() if not k.startswith("_")} for c in wcases]}, timeout=120)
+        if rc == 0:
+            dist["wire_sends_per_attempt"] = {}
+            for c, r in zip(wcases, json.loads(out)["cases"]):
+                evaluations += 1
+                nontrivial.add(("wire", c["_name"]))
+                dist["wire_sends_per_attempt"][c["_name"]] = r["per_call"]
+                added = sorted(set(r.get("header_names") or []) - set(c["headers"]) - {"User-Agent", "Content-Length", "Accept-Encoding", "Content-Type"})
+                if any(n != 1 for n in r["per_call"]):
+                    C.report(ctx, "wire-replay:" + c["_name"],
+                             "one attempt of the real HTTPDeliverer put the message on the wire %s times (per attempt; the target read it and dropped a re-used "
+                             "keep-alive connection): the target can receive a message more often than retry.max+1 times, and more often than attempts are recorded"
+                             % r["per_call"], {"kind": "request", "case": {k: v for k, v in c.items() if not k.startswith("_")}, "observed": r,
+                                               "headers_added_by_the_deliverer": added})
+        else:
+            ctx.notes.append("wire-run not available: " + err[-300:])
+    except (OSError, ValueError, KeyError) as e:
+        ctx.notes.append("wire scenarios skipped: %r" % (e,))
+    tick("wire")
     dist["timing_s"] = timing
     model_evaluated = all(x is not None for x in (mres, fres, qres, cres, m_ttl, m_bat))
     cov.update({
